@@ -6,11 +6,15 @@ pub mod c01;
 pub mod c02;
 #[cfg(feature = "pure")]
 pub mod c03;
+pub mod c04;
+pub mod c05;
+pub mod c06;
 pub mod c07;
 pub mod c08;
 pub mod c09;
 pub mod c10;
 pub mod c11;
+pub mod c12;
 #[cfg(feature = "pure")]
 pub mod c13;
 #[cfg(feature = "pure")]
@@ -29,11 +33,15 @@ pub fn run(ctx: &Ctx) -> Option<Report> {
         "C02" => c02::run(ctx),
         #[cfg(feature = "pure")]
         "C03" => c03::run(ctx),
+        "C04" => c04::run(ctx),
+        "C05" => c05::run(ctx),
+        "C06" => c06::run(ctx),
         "C07" => c07::run(ctx),
         "C08" => c08::run(ctx),
         "C09" => c09::run(ctx),
         "C10" => c10::run(ctx),
         "C11" => c11::run(ctx),
+        "C12" => c12::run(ctx),
         #[cfg(feature = "pure")]
         "C13" => c13::run(ctx),
         #[cfg(feature = "pure")]
